@@ -151,6 +151,17 @@ class Runner:
         d = os.path.join(EVID, "replays"); os.makedirs(d, exist_ok=True)
         path = os.path.join(d, f"{self.pid}-{h}.case"); open(path, "wb").write(data)
         res = [self.replay(path, budget=30) for _ in range(3)]   # hangs: 30 s each, normal cases cost milliseconds
+        if self.cfg.get("schedule_dependent") and not all(r[0] == kind for r in res):
+            # properties about schedules: an outcome that differs between runs of the same input IS the violation; replay up to 12 more times and
+            # report if the failure shows again at least once (the first observation alone could be a disturbed run)
+            extra = []
+            for _ in range(12):
+                extra.append(self.replay(path, budget=30))
+                if extra[-1][0] == kind: break
+            if any(r[0] == kind for r in res + extra):
+                k, s, out = [r for r in res + extra if r[0] == kind][0]
+                open(path + ".txt", "w").write(out)
+                self.violations.append((path, f"{kind} {s} origin={origin} (intermittent: failed again in {sum(r[0] == kind for r in res + extra)} of {len(res + extra)} replays)")); return
         if not all(r[0] == kind for r in res):
             self.notes.append(f"FLAKY candidate {path} origin={origin} results={[r[0] for r in res]}"); return
         if kind == "hang" and not self.cfg.get("hang_is_violation"):
